@@ -138,6 +138,9 @@ func accountFromEd(name string, k ed25519.PrivKeyEd25519) Account {
 	return Account{Name: name, Priv: priv, Pub: pub, Addr: ph.Address()}
 }
 
+// AccountFromEthSecp builds an Ethereum-style account from a 32-byte secret.
+func AccountFromEthSecp(name string, raw []byte) Account { return accountFromEthSecp(name, raw) }
+
 func accountFromEthSecp(name string, raw []byte) Account {
 	return accountFromKey(name, raw, keys.ETHSECP)
 }
